@@ -32,7 +32,7 @@ BOUNDS = {
     'quick': 'E2: 14 texts x 3 engine kinds to fixpoint; E1: all pairs of 8 texts, all interleavings when <= 15000 else preemption bound 3; '
              'all 3-multisets of 4 texts with preemption bound 2; line-granularity bound 1 for 3 ordered pairs on a warm engine and 1 pair on a fresh engine per schedule',
     'thorough': 'E2: 40 texts x 3 engine kinds; E1: all pairs of 16 texts, all interleavings when <= 400000 else bound 4; 3 threads exhaustive '
-                'where <= 800000 schedules else bound 3; two-text thread bodies; line-granularity bound 1 for all ordered pairs of 12 texts; yaql.eval path',
+                'where <= 60000 schedules else bound 3; two-text thread bodies; line-granularity bound 1 for all ordered pairs of 12 texts; yaql.eval path',
 }
 
 TEXTS_Q = ['1', 'a.b', '1 + 2', 'f(x)', '[1, 2]', "'s'", '$a.b(c)', '1 # 2', "'abc", '__x', '1 +', 'a b', ')', '']
@@ -513,7 +513,7 @@ def jobs(tier, seed):
     for i in range(8):
         part = trip[i::8]
         if part:
-            out.append(('triples-%d' % i, 'job_schedules', ('default', part, 3000 if quick else 800000, 2 if quick else 3, 'triple')))
+            out.append(('triples-%d' % i, 'job_schedules', ('default', part, 3000 if quick else 60000, 2 if quick else 3, 'triple')))
     # other engine kinds: a small pair set
     for kind in ('delegates', 'legacy'):
         part = [((a,), (b,)) for a, b in (('1 + 2', 'a.b'), ('f(x)', 'a b'), ('1', '1'))]
